@@ -133,9 +133,10 @@ type GFunc struct {
 	// at each call site (Inline) and has no skeletons of its own
 	Parametric     bool
 	paramKnown     bool
-	exprParametric bool // parametric through a parser.Expression parameter (a "write this expression" wrapper)
-	nInlined       int  // call sites at which the helper was evaluated in place
-	nOpaque        int  // call sites modelled as a call
+	exprParametric bool         // parametric through a parser.Expression parameter (a "write this expression" wrapper)
+	retGenVar      types.Object // the local holding a fresh variable name that the helper returns as its first result (nil: none)
+	nInlined       int          // call sites at which the helper was evaluated in place
+	nOpaque        int          // call sites modelled as a call
 }
 
 type GEM struct {
@@ -266,6 +267,7 @@ type env struct {
 	alias   map[types.Object]string              // Expression parameter of an inlined helper → the caller's expression text
 	fvals   map[types.Object][]ast.Expr          // function-typed local → the functions / method values it may hold here
 	flits   map[types.Object]*litVal             // function-typed local or parameter → the function literal it holds, with the environment it was written in
+	galias  map[types.Object]Part                // local that received the fresh variable name a helper generated and returned → that name
 }
 
 type litVal struct {
@@ -274,7 +276,7 @@ type litVal struct {
 }
 
 func newEnv() *env {
-	return &env{vals: map[types.Object][]Part{}, genvars: map[types.Object]bool{}, rows: map[types.Object]map[string]ast.Expr{}, alias: map[types.Object]string{}, fvals: map[types.Object][]ast.Expr{}, flits: map[types.Object]*litVal{}}
+	return &env{vals: map[types.Object][]Part{}, genvars: map[types.Object]bool{}, rows: map[types.Object]map[string]ast.Expr{}, alias: map[types.Object]string{}, fvals: map[types.Object][]ast.Expr{}, flits: map[types.Object]*litVal{}, galias: map[types.Object]Part{}}
 }
 func (e *env) clone() *env {
 	n := newEnv()
@@ -289,6 +291,9 @@ func (e *env) clone() *env {
 	}
 	for k, v := range e.flits {
 		n.flits[k] = v
+	}
+	for k, v := range e.galias {
+		n.galias[k] = v
 	}
 	for k, v := range e.vals {
 		n.vals[k] = v
@@ -678,9 +683,15 @@ func (ev *gemEval) bind(obj types.Object, rhs ast.Expr, e *env) {
 	if obj == nil {
 		return
 	}
+	delete(e.galias, obj)
 	if call, ok := ast.Unparen(rhs).(*ast.CallExpr); ok {
 		if fn := calleeOf(ev.info(), call); ev.g.isFreshNameFunc(fn) {
 			e.genvars[obj] = true
+			delete(e.vals, obj)
+			return
+		}
+		if cg := ev.g.funcs[calleeOf(ev.info(), call)]; cg != nil && ev.g.parametric(cg) && cg.retGenVar != nil {
+			e.galias[obj] = Part{Kind: PGenVar, Src: cg.retGenVar.Name(), Obj: cg.retGenVar}
 			delete(e.vals, obj)
 			return
 		}
@@ -818,10 +829,22 @@ func (ev *gemEval) assign(s *ast.AssignStmt, e *env) []Node {
 			}
 		}
 	} else if len(s.Rhs) == 1 {
-		// multi-value: anything string-typed on the LHS becomes opaque
-		for _, l := range s.Lhs {
+		// multi-value: anything string-typed on the LHS becomes opaque — except the fresh variable name a helper returns
+		var ret types.Object
+		if call, ok := ast.Unparen(s.Rhs[0]).(*ast.CallExpr); ok {
+			if cg := ev.g.funcs[calleeOf(ev.info(), call)]; cg != nil && ev.g.parametric(cg) {
+				ret = cg.retGenVar
+			}
+		}
+		for i, l := range s.Lhs {
 			if id, ok := l.(*ast.Ident); ok && id.Name != "_" {
 				if obj := ev.info().ObjectOf(id); obj != nil && isStringType(obj.Type()) {
+					if i == 0 && ret != nil {
+						e.galias[obj] = Part{Kind: PGenVar, Src: ret.Name(), Obj: ret}
+						delete(e.vals, obj)
+						continue
+					}
+					delete(e.galias, obj)
 					e.vals[obj] = []Part{{Kind: PData, Src: id.Name}}
 				}
 			}
@@ -1030,7 +1053,7 @@ func (ev *gemEval) call(call *ast.CallExpr, e *env, onEmit func(*Emit)) []Node {
 			}
 			// worth evaluating here only if the caller passes code text it knows (a constant, a generated variable name):
 			// an opaque string (an element or attribute name held in a variable) says no more at the call site than inside
-			informative := cg.exprParametric || textFuncArg
+			informative := cg.exprParametric || textFuncArg || cg.retGenVar != nil
 			for _, parts := range e2.vals {
 				for _, pt := range parts {
 					if pt.Kind == PConst || pt.Kind == PGenVar {
@@ -1162,6 +1185,9 @@ func (ev *gemEval) fold(x ast.Expr, e *env) []Part {
 	case *ast.Ident:
 		obj := info.ObjectOf(x)
 		if obj != nil {
+			if ga, ok := e.galias[obj]; ok {
+				return []Part{ga}
+			}
 			if e.genvars[obj] {
 				return []Part{{Kind: PGenVar, Src: x.Name, Obj: obj}}
 			}
@@ -2031,6 +2057,61 @@ func (ev *gemEval) tableRows(cl *ast.CompositeLit) []tableRow {
 
 // parametric: an unexported emitter of the generator package, never used as a value, that has a string or
 // parser.Expression parameter which reaches emitted text (directly, or by being passed on to another emitter).
+// returnedGenVar: the emitter returns, as its first result (a string), on every return, one and the same local that it
+// assigned from the fresh-name function.
+func (g *GEM) returnedGenVar(gf *GFunc) types.Object {
+	res := gf.Decl.Type.Results
+	if res == nil || len(res.List) == 0 || !gf.Emits {
+		return nil
+	}
+	if t := g.info.TypeOf(res.List[0].Type); t == nil || !isStringType(t) {
+		return nil
+	}
+	var named types.Object
+	if len(res.List[0].Names) > 0 {
+		named = g.info.Defs[res.List[0].Names[0]]
+	}
+	fresh := map[types.Object]bool{}
+	ast.Inspect(gf.Decl.Body, func(n ast.Node) bool {
+		if as, ok := n.(*ast.AssignStmt); ok && len(as.Lhs) == 1 && len(as.Rhs) == 1 {
+			if call, ok := ast.Unparen(as.Rhs[0]).(*ast.CallExpr); ok && g.isFreshNameFunc(calleeOf(g.info, call)) {
+				if id, ok := as.Lhs[0].(*ast.Ident); ok {
+					fresh[g.info.ObjectOf(id)] = true
+				}
+			}
+		}
+		return true
+	})
+	var out types.Object
+	ok := true
+	nret := 0
+	ast.Inspect(gf.Decl.Body, func(n ast.Node) bool {
+		if _, isLit := n.(*ast.FuncLit); isLit {
+			return false
+		}
+		ret, isRet := n.(*ast.ReturnStmt)
+		if !isRet {
+			return true
+		}
+		nret++
+		var ob types.Object
+		if len(ret.Results) == 0 {
+			ob = named
+		} else if id, isID := ast.Unparen(ret.Results[0]).(*ast.Ident); isID {
+			ob = g.info.ObjectOf(id)
+		}
+		if ob == nil || !fresh[ob] || out != nil && out != ob {
+			ok = false
+		}
+		out = ob
+		return true
+	})
+	if !ok || nret == 0 {
+		return nil
+	}
+	return out
+}
+
 // isTextFunc: func(…string) string — a parameter through which a caller says how a piece of code text is built.
 func isTextFunc(t types.Type) bool {
 	sig, ok := t.Underlying().(*types.Signature)
@@ -2052,6 +2133,13 @@ func (g *GEM) parametric(gf *GFunc) bool {
 	gf.paramKnown = true
 	if gf.Decl == nil || gf.Decl.Body == nil || gf.Obj == nil || gf.Obj.Exported() {
 		return false
+	}
+	// a helper that generates a variable name, emits code that defines the variable, and returns the name: what the
+	// caller goes on to emit with that name belongs to the same text, so the helper is evaluated at the call site
+	if rv := g.returnedGenVar(gf); rv != nil {
+		gf.retGenVar = rv
+		gf.Parametric = true
+		return true
 	}
 	params := map[types.Object]bool{}
 	for _, prm := range gf.Decl.Type.Params.List {
